@@ -168,7 +168,7 @@ class Concretiser:
                 out.append({"kind": "quit", "s": s, "to": "ended", "ex": [{"send": self.rng.choice(["QUIT", "quit", "Quit"]) + "\r\n", "reply": "line"}]})
             elif c == "hangup":
                 out.append({"kind": "hangup", "s": s})
-            elif c in ("cancel", "drain", "newconn"):
+            elif c in ("cancel", "drain", "newconn", "idleout"):
                 out.append({"kind": c})
             else:
                 raise ValueError(a)
@@ -195,6 +195,8 @@ def behaviours_from(run, proto, abstract, label, hub="detached"):
                     "retention_sleep_ms": 3000 if (i + run.seed) % 6 == 1 else 0,
                     # a third of the schedules run against a TLS listener (ForceTLS): clients speak TLS, a hangup is a TCP reset
                     "tls": (i + run.seed) % 3 == 1,
+                    # the idle family: the servers' idle timeout is 1.5 s there (600 s, never reached, everywhere else)
+                    "timeout_ms": 1500 if any(a["c"] == "idleout" for a in seq) else 0,
                     "init": init, "steps": steps, "_abs": seq,
                     # a schedule that can kill the process runs in a child process of the driver; its death is an event of the trace
                     "isolate": hub == "wired" or any(a["c"] == "accept" for a in seq)})
@@ -382,6 +384,24 @@ def c19(run, args):
     run.cov["samples"] = samples
     run.cov["predicted_counterexample"] = predicted
     replay_and_validate(run, vh, beh, "c19")
+
+    # (2b) the idle family: sessions that are open at the shutdown request and whose clients neither speak nor go.  Each ends when
+    #      the server's idle timeout expires (1.5 s here) - the server says so and closes - and Drain returns once they have.
+    idle = []
+    for proto in ("smtp", "pop3"):
+        st = STAGES[proto]
+        ib = []
+        for park in st:
+            ib.append([{"c": "open", "s": 1, "park": park}, {"c": "cancel"}, {"c": "drain"}, {"c": "idleout"}])
+            ib.append([{"c": "open", "s": 1, "park": park}, {"c": "cancel"}, {"c": "newconn"}, {"c": "idleout"}, {"c": "drain"}])
+        pairs = [(a, b) for a in st for b in st]
+        rng.shuffle(pairs)
+        for a, b in pairs[:4 if quick else len(pairs)]:
+            ib.append([{"c": "open", "s": 1, "park": a}, {"c": "open", "s": 2, "park": b}, {"c": "cancel"}, {"c": "drain"}, {"c": "idleout"}])
+            ib.append([{"c": "open", "s": 1, "park": a}, {"c": "open", "s": 2, "park": b}, {"c": "cancel"}, {"c": "finish", "s": 1}, {"c": "idleout"}, {"c": "drain"}])
+        idle += behaviours_from(run, proto, ib, "idle")
+    run.cov["idle_timeout_schedules"] = len(idle)
+    replay_and_validate(run, vh, idle, "c19-idle")
 
     # (3) the full assembly's wiring: the hub listens to the store's events; a few schedules in which an open session stores /
     #     removes a message after the shutdown request (child process per schedule: a death is an event of the trace)
